@@ -346,7 +346,8 @@ Definition parseCondDirective (fuel : nat) (mk : nat -> expr -> stmt) (st : psta
   let '(ok, st1) := expectPeek st T_LPAREN in
   if negb ok then POk SNull st1 else
   do (c, st2) <- parseExpression fuel P_LOWEST (advance st1);
-  POk (mk (eline t) c) st2.
+  let '(ok2, st3) := expectPeek st2 T_RPAREN in
+  if ok2 then POk (mk (eline t) c) st3 else POk SNull st3.
 
 Definition parseUseStmt (st : pstate) : pres stmt :=
   let t := curT st in
@@ -354,7 +355,9 @@ Definition parseUseStmt (st : pstate) : pres stmt :=
   if negb ok then POk SNull st1 else
   let st2 := advance st1 in
   let '(name, st3) := aliasPath st2 (bs "layouts") in
-  POk (SUse (eline t) name None) (setUse st3 (eline t, name)).
+  let '(ok2, st4) := expectPeek st3 T_RPAREN in
+  if negb ok2 then POk SNull st4 else
+  POk (SUse (eline t) name None) (setUse st4 (eline t, name)).
 
 Definition parseReserveStmt (st : pstate) : pres stmt :=
   let t := curT st in
@@ -362,7 +365,9 @@ Definition parseReserveStmt (st : pstate) : pres stmt :=
   if negb ok then POk SNull st1 else
   let st2 := advance st1 in
   let name := tlit (curT st2) in
-  let '(rid, st3) := freshId st2 in
+  let '(ok2, st2') := expectPeek st2 T_RPAREN in
+  if negb ok2 then POk SNull st2' else
+  let '(rid, st3) := freshId st2' in
   POk (SReserve (eline t) rid name None) (addReserve st3 name rid).
 
 Definition parseSlotStmt (st : pstate) : pres stmt :=
@@ -397,14 +402,14 @@ Fixpoint parseStatement (fuel : nat) (st : pstate) {struct fuel} : pres stmt :=
       do (c, st2) <- parseExpression f P_LOWEST (advance st1);
       let '(ok2, st3) := expectPeek st2 T_RPAREN in
       if negb ok2 then POk SNull st3 else
-      do (cons, st4) <- parseBlockStmt f (advance st3);
+      do (cons, st4) <- parseBody f st3;
       do (alts, st5) <- elseIfLoop f [] st4;
       match alts with
       | None => POk SNull st5
       | Some alts' =>
         if peekIs st5 T_ELSE then
           (* parseAlternativeBlock *)
-          do (alt, st6) <- parseBlockStmt f (advance (advance st5));
+          do (alt, st6) <- parseBody f (advance st5);
           if peekIs st6 T_ELSE_IF
           then POk SNull (addErr st6 (eline (peekT st6)) (fmt ErrElseifCannotFollowElse []))
           else let '(ok3, st7) := expectPeek st6 T_END in
@@ -425,9 +430,9 @@ Fixpoint parseStatement (fuel : nat) (st : pstate) {struct fuel} : pres stmt :=
       do (post, st6) <- (if negb (peekIs st5 T_RPAREN) then parseEmbeddedCode f st5 else POk SNull st5);
       let '(ok4, st7) := expectPeek st6 T_RPAREN in
       if negb ok4 then POk SNull st7 else
-      do (body, st8) <- parseBlockStmt f (advance st7);
+      do (body, st8) <- parseBody f st7;
       do (alt, st9) <- (if peekIs st8 T_ELSE
-                        then do (a, s) <- parseBlockStmt f (advance st8); POk (Some a) s
+                        then do (a, s) <- parseBody f (advance st8); POk (Some a) s
                         else POk None st8);
       let '(ok5, st10) := expectPeek st9 T_END in
       if ok5 then POk (SFor ln init c post body alt) st10 else POk SNull st10
@@ -441,9 +446,9 @@ Fixpoint parseStatement (fuel : nat) (st : pstate) {struct fuel} : pres stmt :=
       do (arr, st4) <- parseExpression f P_LOWEST (advance st3);
       let '(ok3, st5) := expectPeek st4 T_RPAREN in
       if negb ok3 then POk SNull st5 else
-      do (body, st6) <- parseBlockStmt f (advance st5);
+      do (body, st6) <- parseBody f st5;
       do (alt, st7) <- (if peekIs st6 T_ELSE
-                        then do (a, s) <- parseBlockStmt f (advance st6); POk (Some a) s
+                        then do (a, s) <- parseBody f (advance st6); POk (Some a) s
                         else POk None st6);
       let '(ok4, st8) := expectPeek st7 T_END in
       if ok4 then POk (SEach ln var arr body alt) st8 else POk SNull st8
@@ -459,12 +464,16 @@ Fixpoint parseStatement (fuel : nat) (st : pstate) {struct fuel} : pres stmt :=
       | None =>
         if peekIs st2 T_COMMA then
           do (arg, st3) <- parseExpression f P_LOWEST (advance (advance st2));
-          POk (SInsert ln name arg None) (addInsert st3 name (mkInsert ln name arg None))
+          let '(ok2, st4) := expectPeek st3 T_RPAREN in
+          if negb ok2 then POk SNull st4 else
+          POk (SInsert ln name arg None) (addInsert st4 name (mkInsert ln name arg None))
         else
           let '(ok2, st3) := expectPeek st2 T_RPAREN in
           if negb ok2 then POk SNull st3 else
-          do (body, st4) <- parseBlockStmt f (advance st3);
-          POk (SInsert ln name ENull (Some body)) (addInsert st4 name (mkInsert ln name ENull (Some body)))
+          do (body, st4) <- parseBody f st3;
+          let '(ok3, st5) := expectPeek st4 T_END in
+          if negb ok3 then POk SNull st5 else
+          POk (SInsert ln name ENull (Some body)) (addInsert st5 name (mkInsert ln name ENull (Some body)))
       end
     | T_BREAK_IF => parseCondDirective f SBreakIf st
     | T_CONTINUE_IF => parseCondDirective f SContinueIf st
@@ -504,6 +513,13 @@ Fixpoint parseStatement (fuel : nat) (st : pstate) {struct fuel} : pres stmt :=
     end
   end
 
+(* parseBody: the statements after the current token up to a terminator; may be empty *)
+with parseBody (fuel : nat) (st : pstate) {struct fuel} : pres (list stmt) :=
+  match fuel with
+  | O => POOF
+  | S f => if peekIn st blockTerminators then POk [] st else parseBlockStmt f (advance st)
+  end
+
 (* parseBlockStmt *)
 with parseBlockStmt (fuel : nat) (st : pstate) {struct fuel} : pres (list stmt) :=
   match fuel with
@@ -534,7 +550,7 @@ with elseIfLoop (fuel : nat) (acc : list (expr * list stmt)) (st : pstate) {stru
     do (c, st2) <- parseExpression f P_LOWEST st1;
     let '(ok, st3) := expectPeek st2 T_RPAREN in
     if negb ok then POk None st3 else
-    do (b, st4) <- parseBlockStmt f (advance st3);
+    do (b, st4) <- parseBody f st3;
     elseIfLoop f ((c, b) :: acc) st4
   end
 
@@ -547,14 +563,15 @@ with parseSlots (fuel : nat) (acc : list (nat * bytes * list stmt)) (st : pstate
     if negb (curIs st T_SLOT) then POk (Some (rev acc)) st else
     let t := curT st in
     let cont (name : bytes) (st' : pstate) :=
-      do (b, st2) <- parseBlockStmt f st';
-      let st3 := advance (advance st2) in
-      skipHtmlThenSlots f ((eline t, name, b) :: acc) st3 in
+      do (b, st2) <- parseBody f st';
+      let '(okE, st3) := expectPeek st2 T_END in
+      if negb okE then POk None st3 else
+      skipHtmlThenSlots f ((eline t, name, b) :: acc) (advance st3) in
     if peekIs st T_LPAREN then
       let st1 := advance (advance st) in
       let name := tlit (curT st1) in
       let '(ok, st2) := expectPeek st1 T_RPAREN in
-      if negb ok then POk None st2 else cont name (advance st2)
+      if negb ok then POk None st2 else cont name st2
     else cont [] st
   end
 
